@@ -235,6 +235,47 @@ func (s *session) exec(line string) (string, error) {
 			return "err", nil
 		}
 		return "ok " + hx(buf.Bytes()), nil
+	case "towireenc":
+		_, _, v, rest, err := s.parseTG(toks[1:])
+		if err != nil || len(rest) != 0 {
+			return "", orBad(err)
+		}
+		out := method(v, "ToWire").Call(nil)
+		if e := asErr(out[1]); e != nil {
+			return "err", nil
+		}
+		var buf bytes.Buffer
+		if err := binary.Default.Encode(out[0].Interface().(wire.Value), &buf); err != nil {
+			return "err", nil
+		}
+		return "ok " + hx(buf.Bytes()), nil
+	case "decodevw":
+		t, rest, err := gtext.ParseT(toks[1:])
+		if err != nil || len(rest) != 1 {
+			return "", orBad(err)
+		}
+		data, err := unhex(rest[0])
+		if err != nil {
+			return "", badOp{err}
+		}
+		rt, err := s.goType(t)
+		if err != nil {
+			return "", badOp{err}
+		}
+		w, err := binary.Default.Decode(bytes.NewReader(data), wire.Type(t.Code()))
+		if err != nil {
+			return "err", nil
+		}
+		p := newTarget(rt)
+		out := p.MethodByName("FromWire").Call([]reflect.Value{reflect.ValueOf(w)})
+		if e := asErr(out[0]); e != nil {
+			return "err", nil
+		}
+		g, err := s.dump(t, result(rt, p))
+		if err != nil {
+			return "", err
+		}
+		return "ok " + g.Text(), nil
 	case "fromwire":
 		t, rest, err := gtext.ParseT(toks[1:])
 		if err != nil {
